@@ -41,3 +41,21 @@ Theorem C07_add_field_consecutive : forall b f n,
   snd (add_field b f) = Some n /\ assoc_get f (bm_fields (fst (add_field b f))) = Some (Mapped (n + 1)%N).
 Proof. exact add_field_consecutive. Qed.
 Print Assumptions C07_add_field_consecutive.
+
+(* ---- meaning of the advertised fields ---- *)
+From GE Require Import Model.Val Proofs.FieldsProofs.
+
+(* the value of a binding depends on the data only through the top-level fields the analysis
+   collects: if two data objects agree on fields_of e (and the scope values are the same) the
+   binding has the same value. For every expression form. *)
+Theorem C07_value_depends_on_collected_fields : forall ev0 ev1, e_scopes ev0 = e_scopes ev1 ->
+  forall e, agree_on ev0 ev1 (fields_of e) -> eval ev0 e = eval ev1 e.
+Proof. intros ev0 ev1 Hs. exact (proj1 (eval_depends_on_fields ev0 ev1 Hs)). Qed.
+Print Assumptions C07_value_depends_on_collected_fields.
+
+(* and every such field that is not disabled gets a key: the binding's updater is registered
+   under B[field] *)
+Theorem C07_collect_keys_complete : forall b e f, In f (fields_of e) -> not_disabled b f ->
+  exists i, In (f, i) (snd (collect_keys b e)).
+Proof. exact collect_keys_complete. Qed.
+Print Assumptions C07_collect_keys_complete.
